@@ -257,7 +257,7 @@ func registerVrt(e *engine) {
 	e.reg(vrtPath+"Choice", func(fr *frame, fn *ssa.Function, a []value) value {
 		m := fr.m
 		n := int(m.concInt(a[1], "vrt.Choice n"))
-		if m.concrete != nil {
+		if m.concrete != nil && m.concrete.allC == nil {
 			if n <= 1 {
 				return 0
 			}
@@ -327,6 +327,20 @@ func registerVrt(e *engine) {
 			}
 		}
 		panic(engineError{"vrt.InitPkg: package not loaded: " + path})
+	})
+	e.reg(vrtPath+"ExploreSchedules", func(fr *frame, fn *ssa.Function, a []value) value {
+		// the harness brackets its concurrent section; outside it goroutines run deterministically
+		on, _ := a[0].(bool)
+		fr.m.exploring = on && fr.m.eng.cfg.Explore
+		return nil
+	})
+	e.reg(vrtPath+"Yield", func(fr *frame, fn *ssa.Function, a []value) value {
+		if fr.m.exploring {
+			fr.m.schedPoint(fr)
+		} else {
+			fr.m.yield(fr)
+		}
+		return nil
 	})
 	e.reg(vrtPath+"Symbolic", func(fr *frame, fn *ssa.Function, a []value) value {
 		return fr.m.concrete == nil
